@@ -117,6 +117,9 @@ func c20Scenario() (choice.Scenario, func() any) {
 		inPayload("map-unknown-profile", eBad, func() []byte { return c20ClaimsVariant(base.payload, "http://unknown.example/p", 0, false) }),
 		inPayload("map-unknown-profile-long-head-key", eBad, func() []byte { return c20ClaimsVariant(base.payload, "http://unknown.example/p", 4, false) }),
 		inPayload("map-unknown-profile-longest-head-key", eBad, func() []byte { return c20ClaimsVariant(base.payload, "http://unknown.example/p", 8, false) }),
+		inPayload("map-profile-respelled-scheme", eBad, func() []byte { return c20ClaimsVariant(base.payload, "HTTP://arm.com/psa/2.0.0", 0, false) }),
+		inPayload("map-profile-empty-fragment", eBad, func() []byte { return c20ClaimsVariant(base.payload, "http://arm.com/psa/2.0.0#", 0, false) }),
+		inPayload("map-profile-host-case", eBad, func() []byte { return c20ClaimsVariant(base.payload, "http://ARM.com/psa/2.0.0", 0, false) }),
 		inPayload("map-wrong-type-claim", eBad, func() []byte { return c20ClaimsVariant(base.payload, "", 0, true) }),
 		inPayload("map-wrong-type-claim-long-head-profile-key", eBad, func() []byte { return c20ClaimsVariant(base.payload, "", 4, true) }),
 		inPayload("claims-map-long-head-profile-key", eOK, func() []byte { return c20ClaimsVariant(base.payload, "", 4, false) }),
